@@ -430,6 +430,21 @@ static ASMJIT_FAVOR_SIZE Error validate(InstDB::Mode mode, const BaseInst& inst,
             return make_error(Error::kInvalidAddress);
           }
 
+          // [RIP|LABEL + INDEX] is not encodable in 64-bit mode.
+          if (mode != InstDB::Mode::kX86 && (base_type == RegType::kPC || base_type == RegType::kLabelTag)) {
+            return make_error(Error::kInvalidAddress);
+          }
+
+          // A vector index requires an instruction that uses VSIB addressing.
+          if (Support::test(op_flags, InstDB::OpFlags::kVmMask) && !common_info.is_vsib_op()) {
+            return make_error(Error::kInvalidAddress);
+          }
+
+          // ESP|RSP can't be used as an index (only VSIB allows XMM4|YMM4|ZMM4).
+          if (!Support::test(op_flags, InstDB::OpFlags::kVmMask) && index_type != RegType::kGp16 && m.index_id() == Gp::kIdSp) {
+            return make_error(Error::kInvalidAddress);
+          }
+
           uint32_t index_id = m.index_id();
           if (index_id < Operand::kVirtIdMin) {
             if (ASMJIT_UNLIKELY(index_id >= 32)) {
